@@ -159,6 +159,7 @@ func (el *eventloop) enroll(c net.Conn, addr net.Addr, ctx any) (resCh chan Regi
 		defer func() {
 			if gc == nil { // no connection has taken over the duplicated fd
 				unix.Close(dupFD) //nolint:errcheck
+				vhook.Sys("el.dupclose", nil, dupFD, 0, nil)
 			}
 		}()
 		switch c.(type) {
